@@ -281,6 +281,10 @@ func genC13(seed uint64, tier string) *plan.Plan {
 	// be refused (an element missing), so no flow may ever exist for it
 	pl.Cfg["keys"], pl.Cfg["tasks"] = int64(nk+1), int64(nt)
 	pl.Cfg["workers"] = []int64{1, 1, 2, 3}[r.IntN(4)] // the configured pool size says nothing about who else calls in
+	keymode := r.IntN(4) == 0
+	if keymode {
+		pl.Cfg["keymode"] = 1 // 5-tuples that differ in a port only, protocols other than TCP
+	}
 	pl.Cfg[fmt.Sprintf("cat%d", nk)] = int64(catIntra)
 	pl.Cfg[fmt.Sprintf("v6%d", nk)] = int64(r.IntN(2))
 	// timeouts are not multiples of 7 ms and every clock advance is: no scan lands exactly on a deadline
@@ -301,6 +305,9 @@ func genC13(seed uint64, tier string) *plan.Plan {
 		cat := []int{catInter, catInter, catIntra, catToExternal, catInterIngDrop, catEgressDeny}[r.IntN(6)]
 		pl.Cfg[fmt.Sprintf("cat%d", k)] = int64(cat)
 		pl.Cfg[fmt.Sprintf("v6%d", k)] = int64(r.IntN(2))
+		if keymode && k%2 == 1 {
+			pl.Cfg[fmt.Sprintf("v6%d", k)] = pl.Cfg[fmt.Sprintf("v6%d", k-1)]
+		}
 		s := &kst{cat: cat, start: uint32(10 + r.IntN(100))}
 		for i := range s.rates {
 			s.rates[i] = []uint64{1, 7, 1000, 999983}[r.IntN(4)]
@@ -367,7 +374,11 @@ func genC13(seed uint64, tier string) *plan.Plan {
 					N: []int64{10, int64(20 + val), 100, 200, 300, 400, 5, 6}})
 			case x < 17:
 				// list query: no key, or a partial key
-				pl.Ops = append(pl.Ops, plan.Op{K: "getall", T: t, A: int64(r.IntN(nk+2) - 2)})
+				f := int64(r.IntN(nk+2) - 2)
+				if keymode {
+					f = -1 // partial keys select by address / protocol, which pairs share
+				}
+				pl.Ops = append(pl.Ops, plan.Op{K: "getall", T: t, A: f})
 			case x < 18:
 				pl.Ops = append(pl.Ops, plan.Op{K: "num", T: t})
 			case x < 19:
@@ -668,9 +679,10 @@ func runC13(pl *plan.Plan, out *plan.Outcome) {
 				k := -1
 				src, _ := mapStr(m, "sourceIPv4Address")
 				src6, _ := mapStr(m, "sourceIPv6Address")
+				sport, _ := mapStr(m, "sourceTransportPort")
 				for i := range s.keyCat {
 					fk := aggKeyOf(i, s.keyV6[i])
-					if (!s.keyV6[i] && src == fk.SourceAddress) || (s.keyV6[i] && src6 == fk.SourceAddress) {
+					if ((!s.keyV6[i] && src == fk.SourceAddress) || (s.keyV6[i] && src6 == fk.SourceAddress)) && sport == fmt.Sprint(fk.SourcePort) {
 						k = i
 					}
 				}
